@@ -154,6 +154,7 @@ func corrC02(r *Run) {
 	r.Import("Model.PduRun")
 	r.Import("Spec.Smpp5")
 	r.Import("Proofs.PduSpecProofs")
+	r.Import("Proofs.PduConverseProofs")
 	r.PerShard(60)
 	r.Rule = "(1) 21 PDUs assigned by Go field name and compared octet for octet with frames laid out parameter by parameter from the cited SMPP v5 tables; " +
 		"(2) generated values of all 33 types in the representable domain: Marshal's frame compared inside coqc with the specification encoder (Spec/Smpp5.v) applied to the same value; " +
@@ -387,11 +388,13 @@ func corrC02(r *Run) {
 		sb := (&specBuf{}).cstr("").addr(1, 1, "7").addr(1, 1, "8").i1(esm).i1(0).i1(0).cstr("").cstr("").i1(0).i1(0).
 			i1(byte(want.DataCoding)).i1(want.DefaultMessageID).i1(byte(len(udh) + ml)).raw(udh).raw(want.Message)
 		wantTags := pdu.Tags{}
+		var tlvTerms []string // the TLVs in transmission order, as specification-level values
 		for k := 0; k < r.Rng.Intn(5); k++ {
 			tag := genTag(r.Rng)
 			v := r.Rng.Bytes(r.Rng.Pick([]int{0, 0, 1, 2, 9}))
 			sb.tlv(tag, v)
 			wantTags[tag] = v // a repeated tag: the last value counts
+			tlvTerms = append(tlvTerms, fmt.Sprintf("(%d, %s)", tag, coqHex(v)))
 		}
 		frame := specFrame(id, uint32(1+i), sb.b)
 		r.SetReplay(replayStream(frame, []int{len(frame)}))
@@ -420,6 +423,19 @@ func corrC02(r *Run) {
 		if i%2 == 0 {
 			r.Case("unmarshal (sm_length up to 255, zero-length TLVs) "+shortHex(frame),
 				fmt.Sprintf("beq_ofvals (unmarshal %s %s) (Ok %s)", layoutRef(id), coqHex(frame), coqValue(o.PDU)))
+		} else {
+			// the whole-PDU converse (C02_spec_converse): the specification encoder applied to these specification-level values
+			// gives this frame, and [of_x_fields] — what the theorem says the decoder returns — is what ReadPDU returned
+			udhTerm := "None"
+			if udhi {
+				udhTerm = "(Some " + coqKVs8(want.UDHeader) + ")"
+			}
+			xs := fmt.Sprintf("[XStr []; XInt 1; XInt 1; XStr (hx \"37\"); XInt 1; XInt 1; XStr (hx \"38\"); XInt %d; XInt 0; XInt 0; XStr []; XStr []; XInt 0; XInt 0; XInt %d; XInt %d; XShort %s %s; XTlvs %s]",
+				esm, byte(want.DataCoding), want.DefaultMessageID, udhTerm, coqHex(want.Message), coqList(tlvTerms))
+			r.Case("specification converse (of_x_fields) "+shortHex(frame),
+				fmt.Sprintf("match of_x_fields %s (tl (l_fields %s)) %s false, lay_params (erase %s) (map flat %s) with Some vs, Some body => "+
+					"beq_bytes (Spec.Smpp5.spec_frame %d 0 %d body) %s && beq_fvals (VHeader {| h_len := %d; h_id := %d; h_status := 0; h_seq := %d%%Z |} :: vs) %s | _, _ => false end",
+					layoutRef(id), layoutRef(id), xs, layoutRef(id), xs, id, 1+i, coqHex(frame), len(frame), id, 1+i, coqValue(o.PDU)))
 		}
 	}
 	// (5) registry completeness: a minimal frame (every mandatory parameter empty / zero) of each of the 33 operations,
